@@ -12,6 +12,8 @@
      app_pointer::to_tainted; the checked raw-pointer entry points for every address class."""
 from concurrent.futures import ThreadPoolExecutor
 
+import os
+
 import memcommon as mc
 import vp
 
@@ -46,6 +48,21 @@ def run(tier):
             chk.violation("[%s/%s] tainted pointer outside its sandbox (C03): %s" % (mode, tag, mc.pretty(ev)), mc.pretty(ev))
         if mode == "chain":
             chk.sample(mc.pretty(events[7]))
+    # pointer arithmetic on backends whose range check compares the OWNERS of two addresses (found by walking the
+    # live-sandbox list), with one live sandbox and with an older one destroyed first: nothing leaves the sandbox
+    import addrcommon as ac
+    pdrvs = vp.build_many([("ptr_driver_exact_alone", ["ptr_driver.cpp"], ["-DVM_EXACT_SAME_SANDBOX", "-DSBX_ALONE"], "-O2"),
+                           ("ptr_driver_exact_last", ["ptr_driver.cpp"], ["-DVM_EXACT_SAME_SANDBOX", "-DSBX_LAST"], "-O2")])
+    for nm, pd in sorted(pdrvs.items()):
+        ppath = os.path.join(wd, nm + ".ndjson")
+        pp = vp.run([pd, "c05", ppath, str(vp.seed()), "0"], timeout=1100)
+        vp.exit_ok(pp, nm)
+        pev, pbad = ac.validate(chk, ppath, nm)
+        total += len(pev)
+        combos |= set((nm, e["op"], e.get("cls", e.get("out"))) for e in pev)
+        for b, ev in pbad:
+            chk.violation("[%s] pointer arithmetic yields a pointer outside the sandbox, or refuses one inside (C03/C05): %s" %
+                          (nm, ac.pretty(ev)), ac.pretty(ev))
     # pointers read from a cell that the sandbox rewrites after every read: *p, p->, p[n], p +/- n
     import fetchcommon as fc
     nf, cf = fc.judge(chk, wd, "c03", "C03", ("wasm32", "ilp64", "lp16"))
